@@ -993,7 +993,19 @@ def c18(ctx, tr):
     ref_status = None
     ref_bf = None
     distinct_matchings = set()
+    # limit each solve was given; a limit is 'reachable' when it is small
+    # enough to bind (the unreachable ones are 1e9 and more)
+    limit_of = {}
+    for c in tr.calls:
+        if c['op'] == 'solve':
+            tl = (c.get('kw') or {}).get('timeLimit')
+            limit_of[c['solve_index']] = tl
+    reachable = dict((e2, tl is not None and float(tl) < 1e8)
+                     for e2, tl in limit_of.items())
+    cut_epochs = set(r_['solve_index'] for r_ in tr.rounds
+                     if r_.get('coherent_tl'))
     for ep in epochs:
+        cut_before = any(e2 < ep for e2 in cut_epochs)
         texts = [(op, t) for (e2, op), t in first.items()
                  if e2 == ep and op != 'get_debug']
         for op, text in texts:
@@ -1010,6 +1022,18 @@ def c18(ctx, tr):
                 continue
             r = parse_results(text)
             st = r['status'] if r['timeout'] is None else 'Timeout'
+            if reachable.get(ep) and (st == 'Timeout' or
+                                      st not in ('Optimal', 'Infeasible')):
+                # this solve was given a limit that can bind and it did: a
+                # different call, not a repetition of the first one (what a
+                # cut-short run may show is C14's business).  The solves
+                # around it are judged as ever.
+                res['probes']['solve-cut-short-inside-history'] = 1
+                continue
+            if reachable.get(ep):
+                res['probes']['reachable-limit-did-not-bind'] = 1
+            elif cut_before and ep > 1:
+                res['probes']['full-solve-after-cut-short-solve'] = 1
             if ref_status is None:
                 ref_status = st
             elif st != ref_status:
